@@ -7,8 +7,8 @@ BASE_OFF = ("cmake --build /repo/_build && ctest --test-dir /repo/_build -j8 --t
 
 CHECKS = {
  "C17": dict(engine="cbmc", cat="model_checking", design="4/C17",
-   technique="bounded model checking of src/crc.c, src/hash.c with CBMC (SAT: kissat/cadical/minisat raced), assume-guarantee lemmas (table, one-byte step, peel-last-byte fold, reflection)",
-   text="Solver verdict over all polynomials / running values / data bytes (full width) for the table, step and reflection lemmas; fold lemma for all messages up to the stated byte bound with an arbitrary table. Bounded: messages <= 3 (quick) / 4 (thorough) bytes; induction over bytes is a paper argument.",
+   technique="bounded model checking of src/crc.c, src/hash.c with CBMC (SAT: kissat/cadical/minisat raced), assume-guarantee lemmas (table, one-byte step, peel-last-byte fold, reflection); plus llsym symbolic execution of the block functions with a symbolic 256-entry table for the split-point (incremental == one-shot) clause",
+   text="Solver verdict over all polynomials / running values / data bytes (full width) for the table, step and reflection lemmas; fold lemma for all messages up to the stated byte bound with an arbitrary table. Bounded: messages <= 3 (quick) / 4 (thorough) bytes; induction over bytes is a paper argument. Split clause: for an arbitrary table and arbitrary message bytes, feeding the message in two calls at every split point equals the one-shot value, message lengths 1,2,4,8 (thorough up to 16), all four widths and both bit orders.",
    note="CBMC's C semantics; goto-cc build with the generated config header; unwinding assertions on; each harness has a -DWITNESS twin whose assert(0) must fail."),
  "C18": dict(engine="cbmc", cat="model_checking", design="4/C18",
    technique="bounded model checking of src/utf.c with CBMC: all 2^31-1 code points symbolic, arbitrary byte buffers of symbolic length in exact-size objects",
@@ -16,7 +16,7 @@ CHECKS = {
    note="malloc never fails; out-of-bounds pointer *formation* without access in a_utf_length_ is reported separately (mem_ub_formation_reports), not as a violation."),
  "C19": dict(engine="cbmc", cat="model_checking", design="4/C19",
    technique="bounded model checking of src/math.c integer kernels and a.h bit/byte accessors with CBMC (SAT back ends raced)",
-   text="isqrt: every x < 2^20 (2^26 thorough) for both widths plus 2049-wide windows around every power of two up to the type maximum; gcd/lcm: operands < 2^8 (2^11) with a symbolic competing divisor, lcm against gcd's contract; rev/endian: full width.",
+   text="isqrt: every x < 2^20 (2^26 thorough) for both widths plus 2049-wide windows around every power of two up to the type maximum; gcd/lcm: operands < 2^8 (2^11) with a symbolic competing divisor, the same with both operands shifted left by 16/32/48 bits (upper-half words), lcm against gcd's contract; rev/endian: full width.",
    note="isqrt full 2^32/2^64 and gcd at full width are outside (no verdict within budget; see DESIGN 2)."),
 }
 
@@ -24,13 +24,13 @@ E2NOTE = "llsym = own forking symbolic executor for the clang-14 -O0 + sroa,mem2
 CHECKS.update({
  "C01": dict(engine="llsym", cat="model_checking", design="4/C01",
    technique="symbolic execution of src/avl.c IR (llsym + z3): inductive step from every valid AVL shape up to a height bound with symbolic keys/victims, plus bounded histories from the empty tree",
-   text="Every insert/remove/search with a symbolic key or victim from every AVL tree of height <= 3 (20 shapes; thorough: height <= 4, 335 shapes), and every insert/remove pattern of length 5 (thorough 7) from the empty tree with symbolic keys; the solver partitions key space (all relative orders incl. duplicates). Full invariant oracle after every call.",
+   text="Every insert/remove/search with a symbolic key or victim from every AVL tree of height <= 3 (20 shapes) plus every removal from all 315 shapes of height 4 (thorough: all operations from height <= 4, 335 shapes), and every insert/remove pattern of length 5 (thorough 7) from the empty tree with symbolic keys; the solver partitions key space (all relative orders incl. duplicates). Full invariant oracle after every call.",
    note=E2NOTE + " Packed parent word configuration (A_SIZE_POINTER == 8)."),
 })
 CHECKS.update({
  "C02": dict(engine="llsym", cat="model_checking", design="4/C02",
    technique="symbolic execution of src/rbt.c IR (llsym + z3): inductive step from every valid red-black tree up to a node bound with symbolic keys/victims, plus bounded histories; A_ASSUME operands checked as assertions",
-   text="Every insert/remove/search with symbolic key or victim from every valid red-black tree with <= 8 nodes (123 trees; thorough: <= 10 nodes, 377 trees) and every insert/remove pattern of length 5 (7) from the empty tree; full red-black + BST + parent-link + contents oracle after every call.",
+   text="Every insert/remove/search with symbolic key or victim from every valid red-black tree with <= 8 nodes plus every removal from every valid tree with 9 or 10 nodes (thorough: all operations, <= 11 nodes) and every insert/remove pattern of length 5 (7) from the empty tree; full red-black + BST + parent-link + contents oracle after every call.",
    note=E2NOTE + " Packed parent word configuration (bit 0 = colour)."),
  "C03": dict(engine="llsym", cat="model_checking", design="4/C03",
    technique="symbolic execution of the iterator functions and the header's foreach/fortear macros (instantiated in a wrapper TU) over every tree shape up to the bound; freed-node instrumentation for tear-down",
@@ -58,7 +58,7 @@ CHECKS.update({
 CHECKS.update({
  "C07": dict(engine="llsym", cat="model_checking", design="4/C07",
    technique="symbolic execution of vec/buf/que/str IR (llsym + z3) with a symbolic allocator: one fail/succeed Boolean per allocation request, forked by the executor; abstract-model and block-ledger oracle",
-   text="For vector, buffer, queue and string states (constructed or API-built), one allocating operation under every subset of failing allocation requests, then the same operation with a healthy allocator, then destruction: failure must be reported, the container must equal its previous abstract state and satisfy its invariants, the retry must succeed, and every block handed out must be released exactly once (double free / invalid free are executor findings).",
+   text="For vector, buffer, queue and string states (constructed or API-built, including queues of 9-10 nodes with and without recycled pool nodes), one allocating operation under every subset of failing allocation requests, then the same operation with a healthy allocator, then destruction: failure must be reported, the container must equal its previous abstract state and satisfy its invariants, the retry must succeed, and every block handed out must be released exactly once (double free / invalid free are executor findings).",
    note=E2NOTE + " Native replay installs an allocator with the model's failure mask into a_alloc."),
 })
 REALNOTE = " Exact-real domain: a_real is mapped to z3 Real (rational arithmetic), so the verdict is about the mathematical formula for ALL real inputs; IEEE rounding is outside the claim (stated in the evidence)."
@@ -81,7 +81,7 @@ CHECKS.update({
 CHECKS.update({
  "C14": dict(engine="llsym", cat="model_checking", design="4/C14",
    technique="symbolic execution of src/trajtrap.c and the loop-free cruise branch of src/trajbell.c (llsym, a_real as z3 Real, nlsat): planning branches forked, symbolic query time inside every phase, limits/continuity/derivative clauses decided by z3",
-   text="Trapezoid: every planning branch, both directions, all real feasible requests: phase durations ordered, start/end state, queries outside [0,t], |vel| <= |vm| for a symbolic time in each phase, acc = d vel/dt, vel = d pos/dt, position and velocity continuous at every phase boundary. Bell profile: the same clauses plus |acc| <= am, |jer| <= jm and continuity of acc, for plans with a constant-velocity phase; the iterative acceleration-reduction loop is cut and stated as outside.",
+   text="Trapezoid: every planning branch, both directions, all real feasible requests: phase durations ordered, start/end state, queries outside [0,t], |vel| <= |vm| for a symbolic time in each phase, acc = d vel/dt, vel = d pos/dt, position and velocity continuous at every phase boundary. Bell profile: the same clauses plus |acc| <= am, |jer| <= jm and continuity of acc, for plans with a constant-velocity phase; quick tier: the iterative acceleration-reduction loop is cut and stated as outside; thorough tier: one pass of that loop is executed under the double-S feasibility precondition (obligations the solver cannot close within its cap are listed as dropped).",
    note=E2NOTE + REALNOTE + " sqrt(x) is the y >= 0 with y*y = x; z3 'unknown' answers would be listed as dropped (bell only), there are none at present."),
 })
 CHECKS.update({
@@ -99,7 +99,7 @@ CHECKS.update({
 CHECKS.update({
  "C13": dict(engine="llsym+cbmc", cat="model_checking", design="4/C13",
    technique="llsym symbolic execution of src/mf.c, src/fuzzy.c, src/pid_fuzzy.c with a_real as z3 Real (exp/pow uninterpreted with contracts), z3 nlsat for range/shape/continuity/complement/operator/gain clauses; CBMC bit-precise for the min/max operators",
-   text="All 13 membership families for all real inputs and well-ordered parameter tuples: value in [0,1] (no division by a zero width), dispatcher = specific function, core/support/monotone-flank shape, continuity at every break point, S+Z = 1 and lins+linz = 1; the seven operators on [0,1]^2: range, commutativity, monotonicity, min/max bounds, boundary cases (min/max also bit-precisely); scheduled gains = base + weighted mean of the consequents, inside the consequent range; scratch buffer of exactly the documented size never overrun (order 3 with two simultaneously active sets).",
+   text="All 13 membership families for all real inputs and well-ordered parameter tuples: value in [0,1] (no division by a zero width), dispatcher = specific function, core/support/monotone-flank shape (closed core for trap/pi: value exactly 1 on [b,c]), continuity at every break point, S+Z = 1 and lins+linz = 1; the seven operators on [0,1]^2: range, commutativity, monotonicity, min/max bounds, boundary cases (min/max also bit-precisely); scheduled gains = base + weighted mean of the consequents, inside the consequent range; scratch buffer of exactly the documented size never overrun (order 3 with two simultaneously active sets).",
    note=E2NOTE + REALNOTE + " Bit-precise range of the membership functions is outside: floating-point division circuits give no SAT verdict within the budget."),
 })
 CHECKS.update({
@@ -111,7 +111,7 @@ CHECKS.update({
 CHECKS.update({
  "C11": dict(engine="llsym", cat="model_checking", design="4/C11",
    technique="symbolic execution of src/math.c IR in the fallback configuration (every A_HAVE_* off) and the libm-bound one, a_real as z3 Real, libm calls as fresh reals with contract/monotonicity/parity facts; nlsat decides quadrant tables, exact-branch identities, norm and reduction formulas",
-   text="Partial by design: decides the atan2 quadrant/axis table over all sign combinations, the exact-branch identities of asinh/acosh/atanh/log1p/expm1 (the argument handed to log equals the defining argument; domain and sign handling), r >= 0 and r^2 = sum x^2 for norm2/norm3/norm/norm_, the composition of the coordinate conversions, and sum/sum1/sum2/mean/dot/copy/swap/fill/zero/push/roll (+strided) = their definitions for lengths 0..4 (6) in both configurations. NOT decided: accuracy in ulps of any transcendental evaluation, asymptotic branches, overflow-freedom of the norms.",
+   text="Partial by design: decides the atan2 quadrant/axis table over all sign combinations, the exact-branch identities of asinh/acosh/atanh/log1p/expm1 (the argument handed to log equals the defining argument; domain and sign handling), r >= 0 and r^2 = sum x^2 for norm2/norm3/norm/norm_, the composition of the coordinate conversions, and sum/sum1/sum2/mean/dot/copy/swap/fill/zero/push/roll (+strided) = their definitions for lengths 0..4 (6) in both configurations. Also the oddness of asinh/atanh and the structure of the asymptotic branches (which libm call receives which argument). NOT decided: accuracy in ulps of any transcendental evaluation, overflow-freedom of the norms.",
    note=E2NOTE + REALNOTE + " No installed solver decides transcendental accuracy; that clause of C11 is outside this check."),
 })
 CHECKS.update({
